@@ -209,6 +209,7 @@ class Recorder:
         self.streams.append(stream)
         if self.depth == 0:
             # created directly (generate_pdf): a page stream
+            object.__setattr__(stream, '_verif_page', True)
             self.log.append(('newpage',))
             self.tree_events.append(('call', len(self.log) - 1))
             self.font_events.append(('page', len(self.streams) - 1))
